@@ -20,7 +20,7 @@ class InterleaveError(Exception):
 
 
 class Interleaver(object):
-    def __init__(self, seed, switch_p=0.2, trace_prefix=None, max_switches=400, wait_s=60.0):
+    def __init__(self, seed, switch_p=0.2, trace_prefix=None, max_switches=400, wait_s=10.0):
         self.rng = random.Random(seed)
         self.switch_p = switch_p
         self.prefix = os.path.realpath(trace_prefix) + os.sep if trace_prefix else None
@@ -70,6 +70,10 @@ class Interleaver(object):
             if event != 'call':
                 return None
             fn = frame.f_code.co_filename
+            if frame.f_code.co_name in ('__repr__', '__str__', '__format__'):
+                # formatting methods run under the logging module's handler lock when a record is emitted: a thread
+                # parked there would block every other thread that logs.  No pre-emption inside them.
+                return None
             if prefix is None or fn.startswith(prefix):
                 return local
             return None
